@@ -468,9 +468,9 @@ func c07Reducers(c *core.Ctx) {
 		if f == nil {
 			continue
 		}
-		src := core.Src(c.Prog.Fset, f.Decl.Body)
+		src := core.SrcFull(c.Prog.Fset, f.Decl.Body)
 		calls := core.FindCalls(f.Pkg.TypesInfo, f.Decl.Body, false, "functional.reduceFloat")
-		okc := len(calls) == 1 && strings.Contains(core.Src(c.Prog.Fset, calls[0].Args[2]), fr.op)
+		okc := len(calls) == 1 && strings.Contains(core.SrcFull(c.Prog.Fset, calls[0].Args[2]), fr.op)
 		c.Check(okc, rC07Red, f.Name, f.Decl.Pos(), "hands "+fr.op+" to reduceFloat", "expected a single reduceFloat call whose combine function is "+fr.op+"; body: "+src)
 	}
 }
@@ -656,7 +656,7 @@ func c07Dedup(c *core.Ctx) {
 			if !strings.Contains(src, bm.name) && !rangesOverLookup(f, info, rs, bm.obj) {
 				return true
 			}
-			if strings.Contains(core.Src(c.Prog.Fset, rs.Body), "Equals") {
+			if strings.Contains(core.SrcFull(c.Prog.Fset, rs.Body), "Equals") {
 				usesEquals = true
 			}
 			return true
